@@ -1,5 +1,5 @@
 """Run context shared by all property checks: mismatch collection, known findings, evidence, replay files."""
-import fnmatch, hashlib, json, os, sys, time, traceback
+import fnmatch, hashlib, json, os, re, shutil, sys, time, traceback
 
 from . import tlc as _tlc
 from .tlc import MachineryError
@@ -18,30 +18,108 @@ def _jsonable(x):
         return [_jsonable(v) for v in x]
     if isinstance(x, np.ndarray):
         return _jsonable(x.tolist())
+    if isinstance(x, (np.bool_,)):
+        return bool(x)
     if isinstance(x, (np.integer,)):
         return int(x)
     if isinstance(x, (np.floating,)):
-        return float(x)
-    if isinstance(x, (np.bool_,)):
-        return bool(x)
-    if isinstance(x, complex):
-        return [x.real, x.imag]
+        x = float(x)
+    if isinstance(x, (complex, np.complexfloating)):
+        return [_jsonable(float(x.real)), _jsonable(float(x.imag))]
     if isinstance(x, float) and (x != x or x in (float("inf"), float("-inf"))):
-        return repr(x)
+        return repr(x)          # strict JSON has no NaN / Infinity
+    if isinstance(x, (set, frozenset)):
+        return sorted((_jsonable(v) for v in x), key=repr)
     if isinstance(x, (str, int, float, bool)) or x is None:
         return x
     return repr(x)
 
 
+def _too_broad(pat):
+    """A known-finding signature must name the failing call site: a pattern that consists of wildcards only, or whose
+    first '/'-component (the facet) is a wildcard, would also swallow *other* violations of the same property."""
+    parts = pat.split("/")
+    literal = re.sub(r"[*?\[\]]", "", pat)
+    return len(literal.replace("/", "")) < 4 or any(c in parts[0] for c in "*?[")
+
+
 def load_findings():
     out = []
-    if os.path.exists(FINDINGS):
-        out += json.load(open(FINDINGS)).get("findings", [])
-    # development drop-ins (merged into known_findings.json at integration time)
-    import glob
-    for f in sorted(glob.glob(os.path.join(ROOT, "known_findings.d", "*.json"))):
-        out += json.load(open(f)).get("findings", [])
+    try:
+        if os.path.exists(FINDINGS):
+            out += json.load(open(FINDINGS)).get("findings", [])
+        # development drop-ins (merged into known_findings.json at integration time)
+        import glob
+        for f in sorted(glob.glob(os.path.join(ROOT, "known_findings.d", "*.json"))):
+            out += json.load(open(f)).get("findings", [])
+    except (ValueError, OSError) as ex:
+        raise MachineryError("known findings cannot be read: %s" % ex)
+    for f in out:
+        if not isinstance(f.get("signatures", []), list) or any(not isinstance(p, str) for p in f.get("signatures", [])):
+            raise MachineryError("known finding %s: signatures must be a list of strings" % f.get("id"))
+        for pat in f.get("signatures", []):
+            if f.get("status", "open") == "open" and _too_broad(pat):
+                raise MachineryError("known finding %s: signature pattern %r is too broad (would hide other violations)" % (f.get("id"), pat))
     return out
+
+
+def evidence_problems(ev):
+    """The rules of /root/.vp/EVIDENCE.schema.json that apply to the files written here (no jsonschema package in /venv).
+    Returns a list of problems (empty = valid)."""
+    bad = []
+    for k in ("property_id", "tier", "seed", "level", "coverage", "wall_s"):
+        if k not in ev:
+            bad.append("missing " + k)
+    if bad:
+        return bad
+    if not isinstance(ev["property_id"], str):
+        bad.append("property_id")
+    if ev["tier"] not in ("quick", "thorough"):
+        bad.append("tier")
+    if not isinstance(ev["seed"], int) or isinstance(ev["seed"], bool):
+        bad.append("seed")
+    if not isinstance(ev["wall_s"], (int, float)) or isinstance(ev["wall_s"], bool):
+        bad.append("wall_s")
+    if "violations" in ev and (not isinstance(ev["violations"], int) or isinstance(ev["violations"], bool)):
+        bad.append("violations")
+    if "assumptions" in ev and not (isinstance(ev["assumptions"], list) and all(isinstance(a, str) for a in ev["assumptions"])):
+        bad.append("assumptions")
+    cov = ev["coverage"]
+    if not isinstance(cov, dict):
+        return bad + ["coverage"]
+    def isint(x, lo=0):
+        return isinstance(x, int) and not isinstance(x, bool) and x >= lo
+    for k in ("evaluations", "distinct_nontrivial", "states", "transitions", "traces_validated_against_impl"):
+        if k in cov and not isint(cov[k]):
+            bad.append("coverage." + k)
+    if "rule" in cov and not isinstance(cov["rule"], str):
+        bad.append("coverage.rule")
+    if "samples" in cov and not isinstance(cov["samples"], list):
+        bad.append("coverage.samples")
+    if "exhaustive" in cov and not isinstance(cov["exhaustive"], bool):
+        bad.append("coverage.exhaustive")
+    if "trusted_base" in cov and not (isinstance(cov["trusted_base"], list) and all(isinstance(a, str) for a in cov["trusted_base"])):
+        bad.append("coverage.trusted_base")
+    def fallback():
+        if not (isint(cov.get("evaluations"), 1) and isint(cov.get("distinct_nontrivial"), 2)):
+            bad.append("generic fallback: evaluations >= 1 and distinct_nontrivial >= 2 needed")
+        if "samples" in cov and len(cov["samples"]) < 1:
+            bad.append("coverage.samples empty")
+    if ev["level"] == "model_checking":
+        if all(k in cov for k in ("states", "transitions", "traces_validated_against_impl", "samples")):
+            if not (isint(cov["states"], 1) and isint(cov["transitions"], 1) and isinstance(cov["samples"], list) and len(cov["samples"]) >= 1):
+                bad.append("model_checking: states >= 1, transitions >= 1, samples non-empty needed")
+        else:
+            fallback()
+    elif ev["level"] == "other":
+        if "explanation" in cov:
+            if not (isinstance(cov["explanation"], str) and cov["explanation"].strip()):
+                bad.append("coverage.explanation")
+        else:
+            fallback()
+    else:
+        bad.append("level %r is not written by this machinery" % (ev["level"],))
+    return bad
 
 
 class Run:
@@ -67,6 +145,8 @@ class Run:
         self.findings = [f for f in load_findings() if f.get("property") == pid and f.get("status", "open") == "open"]
         self.replay_mode = replay is not None
         self.facets = {}              # facet -> count of cases
+        self._unexamined = []         # TLC results that reported a violation nobody looked at (see finish)
+        self._workdirs = []           # TLC work directories of this run (removed in finish)
 
     # ----- TLC -------------------------------------------------------------
     def tlc(self, spec, cfg=None, **kw):
@@ -75,7 +155,15 @@ class Run:
         need_cov = kw.pop("require_actions", None)
         if need_cov:
             kw["coverage"] = True
+        expect = bool(kw.get("expect_violation"))
         res = _tlc.run_tlc(spec, cfg=cfg, **kw)
+        if getattr(res, "workdir", None):
+            self._workdirs.append(res.workdir)
+        if not res.ok and not expect:
+            # the caller must either hand this result to model_must_hold (-> VIOLATION on the model) or raise; a
+            # violated run that is silently used (e.g. for its emitted cases only) is reported as a machinery error
+            res._examined = False
+            self._unexamined.append((spec, cfg or "<inline>", res))
         self.states += res.distinct
         self.transitions += res.generated
         self.tlc_runs.append({"spec": spec, "cfg": cfg or "<inline>", "distinct": res.distinct,
@@ -84,12 +172,15 @@ class Run:
                               "coverage": {k: list(v) for k, v in res.coverage.items()} if res.coverage else None})
         if need_cov and res.ok:
             for a in need_cov:
-                if res.coverage.get(a, (0, 0))[1] == 0:
+                # TLC appends the location of the disjunct to the name when it is not a plain operator application ("A@130")
+                taken = sum(v[1] for k, v in res.coverage.items() if k == a or k.startswith(a + "@"))
+                if taken == 0:
                     raise MachineryError("vacuous model: action %s of %s never taken (coverage %r)" % (a, spec, res.coverage))
         return res
 
     def model_must_hold(self, res, what):
         """The bounded model itself must satisfy its invariants; otherwise the property fails on the spec."""
+        res._examined = True
         if not res.ok:
             self.mismatch("model/%s/%s" % (what, res.violated or "postcondition"),
                           {"kind": "model", "spec": what},
@@ -128,6 +219,13 @@ class Run:
     def finish(self, error=None):
         wall = time.time() - self.t0
         global EVID, REPLAYS
+        pending = [(sp, cf, r) for sp, cf, r in self._unexamined if not getattr(r, "_examined", False)]
+        if pending and not error:
+            error = "TLC reported %s on %s (%s) and the check did not examine that result" % (
+                pending[0][2].violated or "a failed postcondition", pending[0][0], pending[0][1])
+        if not os.environ.get("VERIF_KEEP_WORK"):
+            for d in self._workdirs:
+                _tlc.cleanup(d)
         if os.environ.get("CUQIVERIF_REPO", "/repo") != "/repo":
             # development runs against a scratch worktree (seeded changes) must not overwrite the evidence of /repo
             EVID = os.path.join(ROOT, ".work", "evidence-dev")
@@ -167,11 +265,27 @@ class Run:
                 "known_findings_hit": {k: v["count"] for k, v in self.known_hits.items()},
             }
             ev = {"property_id": self.pid, "tier": self.tier, "seed": int(self.seed), "level": "model_checking",
-                  "coverage": cov, "assumptions": self.assumptions, "wall_s": round(wall, 2),
+                  "coverage": cov, "assumptions": [str(a) for a in self.assumptions], "wall_s": round(wall, 2),
                   "violations": len(seen)}
+            cov["rule"] = str(cov["rule"])
+            cov["traces_validated_against_impl"] = max(int(cov["traces_validated_against_impl"]), 0)
             if error:
-                ev["coverage"]["machinery_error"] = str(error)[:2000]
-            json.dump(ev, open(os.path.join(EVID, "%s.json" % self.pid), "w"), indent=1)
+                cov["machinery_error"] = str(error)[:2000]
+            if cov["states"] < 1 or cov["transitions"] < 1:
+                # no TLC run completed (machinery failure before / inside the first model-checking run): the file must not
+                # claim model checking; it stays schema-valid and says what happened
+                ev["level"] = "other"
+                cov["explanation"] = ("no model-checking run completed in this execution: %s" % (
+                    str(error)[:500] if error else "the check made no TLC run"))
+            bad = evidence_problems(ev)
+            if bad:
+                ev["level"] = "other"
+                cov["explanation"] = "evidence record was not well-formed (%s); written as level=other" % "; ".join(bad)[:500]
+            path = os.path.join(EVID, "%s.json" % self.pid)
+            tmp = "%s.%d.tmp" % (path, os.getpid())
+            with open(tmp, "w") as f:
+                json.dump(ev, f, indent=1, allow_nan=False)
+            os.replace(tmp, path)
         for l in lines:
             print(l)
         for l in vio_lines:
